@@ -40,6 +40,15 @@ def run(ctx):
     r1 = vlib.tlc_check(ctx.scratch, "HandshakeImpl", "HandshakeImpl_r1.cfg", workers=4)
     r1d = vlib.tlc_check(ctx.scratch, "HandshakeImpl", "HandshakeImpl_defect.cfg", workers=1, expect_violation="StableAfterOK")
     ctx.log("R1: HandshakeImpl %d distinct states, HandshakeObs invariants hold; sensitivity config (CEAs not ignored after completion) violates StableAfterOK as it must" % r1["distinct"])
+    ind = None
+    if not quick and not ctx.replay:
+        # unbounded safety of the model: inductive invariant, any retransmission budget
+        t = vlib.apalache_check(ctx.scratch, "HandshakeInd", "IndInit", "IndInv", 1, "CInit")
+        t += vlib.apalache_check(ctx.scratch, "HandshakeInd", "Init", "IndInv", 0, "CInit")
+        t += vlib.apalache_check(ctx.scratch, "HandshakeInd", "IndInit", "Implied", 0, "CInit")
+        t += vlib.apalache_check(ctx.scratch, "HandshakeInd", "IndInit", "IndInv", 1, "CInitOriginal", expect_violation=True)
+        ind = "spec/HandshakeInd.tla: IndInv is inductive (Apalache, base + step) and implies Bounded, FailClosed, OkOnlyAfterOk, StableAfterOK, NotStuck for MaxRetransmits <= 1000; not inductive for the original handleCEA (%.0f s)" % t
+        ctx.log("Apalache: " + ind)
     if ctx.replay:
         cases = [json.load(open(ctx.replay))["case"]]
         g = dict(generated=0, distinct=0)
@@ -85,7 +94,7 @@ def run(ctx):
                     "x extras after completion (duplicate success, late failure, late malformed; sequences up to the bound) followed by an application answer; replayed on a real sm.Client over memnet with a count-driven peer (40 ms interval). "
                     "non-trivial = a retransmission, a failure or an extra answer; distinct by script",
                samples=[dict(script=l["script"], obs={k: l["obs"][k] for k in ("ncer", "mingap", "dial_ok", "errclass", "closed_end", "app_dispatched")}) for l in lines[0:len(lines):max(1, len(lines) // 3)]][:3],
-               exhaustive=True, r1_states=r1["distinct"], rejected=len(bad), impl_conformance=conf, known_finding_hits={k: n for k, (n, _) in v.hits.items()})
+               exhaustive=True, r1_states=r1["distinct"], rejected=len(bad), impl_conformance=conf, inductive_invariant=ind, known_finding_hits={k: n for k, (n, _) in v.hits.items()})
     rc = v.finish()
     vlib.write_evidence("C12", ctx.tier, ctx.seed, cov, ctx.wall(), v.nviol,
                         ["timers are nondeterministic steps in the model; on the code, spacing is checked one-sidedly from monotonic stamps and peers never act at a timer boundary",
